@@ -336,6 +336,26 @@ impl Database {
         #[cfg(feature = "timing")]
         PAGE0_READ_NS.fetch_add(page0_start.elapsed().as_nanos() as u64, Ordering::Relaxed);
 
+        // The row goes through what INSERT applies to every row: AUTO_INCREMENT (the counter
+        // is stored at once, a value handed out is never generated again), then DEFAULT,
+        // NOT NULL and length validation.
+        let mut row = params.to_vec();
+        let auto_increment_col = plan
+            .table_def
+            .columns()
+            .iter()
+            .position(|c| c.has_constraint(&Constraint::AutoIncrement));
+        if let Some(col) = auto_increment_col {
+            let header = TableFileHeader::from_bytes_mut(storage_guard.page_mut(0)?)?;
+            let mut counter = header.auto_increment();
+            Self::apply_auto_increment(&mut row, col, &mut counter)?;
+            if counter > header.auto_increment() {
+                header.set_auto_increment(counter);
+            }
+        }
+        ConstraintValidator::new(&plan.table_def).validate_insert(&mut row)?;
+        let params = &row[..];
+
         #[cfg(feature = "timing")]
         let record_start = std::time::Instant::now();
 
